@@ -1,3 +1,4 @@
 pub mod cal;
 pub mod fmt;
 pub mod inst;
+pub mod rfc3339;
